@@ -9,20 +9,20 @@ Local Open Scope Z_scope.
 
 Ltac Zify.zify_post_hook ::= Z.div_mod_to_equations.
 
-Lemma parse_u32_canon : forall v, 0 <= v < 18446744073709551616 ->
-  parse_uint32 (u32 (zlen (varint v))) (varint v) = v mod 4294967296.
+Lemma parse_u32_canon : forall v rest, 0 <= v < 18446744073709551616 ->
+  parse_uint32 (u32 (zlen (varint v))) (varint v ++ rest) = v mod 4294967296.
 Proof.
-  intros v Hv. destruct (varint_wf v Hv) as (W & V & L & B).
+  intros v rest Hv. destruct (varint_wf v Hv) as (W & V & L & B).
   rewrite (u32_small (zlen (varint v))) by (unfold zlen; lia).
-  rewrite <- (app_nil_r (varint v)) at 2. unfold zlen. rewrite parse_uint32_spec by assumption. rewrite V. reflexivity.
+  unfold zlen. rewrite parse_uint32_spec by assumption. rewrite V. reflexivity.
 Qed.
 
-Lemma parse_u64_canon : forall v, 0 <= v < 18446744073709551616 ->
-  parse_uint64 (u32 (zlen (varint v))) (varint v) = v.
+Lemma parse_u64_canon : forall v rest, 0 <= v < 18446744073709551616 ->
+  parse_uint64 (u32 (zlen (varint v))) (varint v ++ rest) = v.
 Proof.
-  intros v Hv. destruct (varint_wf v Hv) as (W & V & L & B).
+  intros v rest Hv. destruct (varint_wf v Hv) as (W & V & L & B).
   rewrite (u32_small (zlen (varint v))) by (unfold zlen; lia).
-  rewrite <- (app_nil_r (varint v)) at 2. unfold zlen. rewrite parse_uint64_spec by assumption. rewrite V.
+  unfold zlen. rewrite parse_uint64_spec by assumption. rewrite V.
   apply Z.mod_small. exact Hv.
 Qed.
 
@@ -44,16 +44,26 @@ Proof. intros. unfold zlen. rewrite le_n_length'. reflexivity. Qed.
 Lemma le8_len : forall v, zlen (le_n 8 v) = 8.
 Proof. intros. unfold zlen. rewrite le_n_length'. reflexivity. Qed.
 
-Lemma fixed32_rt : forall w, 0 <= w < 4294967296 -> parse_fixed_uint32 (le_n 4 w) = w.
-Proof. intros w H. rewrite <- (app_nil_r (le_n 4 w)). apply parse_fixed_uint32_spec. exact H. Qed.
-Lemma fixed64_rt : forall w, 0 <= w < 18446744073709551616 -> parse_fixed_uint64 (le_n 8 w) = w.
-Proof. intros w H. rewrite <- (app_nil_r (le_n 8 w)). apply parse_fixed_uint64_spec. exact H. Qed.
+Lemma fixed32_rt : forall w rest, 0 <= w < 4294967296 -> parse_fixed_uint32 (le_n 4 w ++ rest) = w.
+Proof. intros w rest H. apply parse_fixed_uint32_spec. exact H. Qed.
+Lemma fixed64_rt : forall w rest, 0 <= w < 18446744073709551616 -> parse_fixed_uint64 (le_n 8 w ++ rest) = w.
+Proof. intros w rest H. apply parse_fixed_uint64_spec. exact H. Qed.
 
-Theorem dec_enc_scalar : forall t w b, is_scalar t = true -> canon_word t w = true ->
-  e_scalar t w = Ok b ->
-  dec_scalar t (wire_type_of t) (zlen b) b = Ok w.
+Lemma parse_boolean_one : forall x rest, (x = 0 \/ x = 1) -> parse_boolean (u32 1) (x :: rest) = x.
 Proof.
-  intros t w b Ht Hc He.
+  intros x rest Hx. unfold parse_boolean. cbv zeta. change (u32 1) with 1. change (Z.to_nat 1) with 1%nat.
+  rewrite while_S'. cbv beta iota zeta. change (0 <? 1) with true. cbv iota. change (rd (x :: rest) 0) with x.
+  destruct Hx as [-> | ->].
+  - change (Z.land 0 127 =? 0) with true. cbn [negb]. cbv iota. change (u32 (0 + 1)) with 1.
+    rewrite while_S'. cbv beta iota zeta. change (1 <? 1) with false. cbv iota. reflexivity.
+  - change (Z.land 1 127 =? 0) with false. cbn [negb]. cbv iota. reflexivity.
+Qed.
+
+Theorem dec_enc_scalar_rest : forall t w b rest, is_scalar t = true -> canon_word t w = true ->
+  e_scalar t w = Ok b ->
+  dec_scalar t (wire_type_of t) (zlen b) (b ++ rest) = Ok w.
+Proof.
+  intros t w b rest Ht Hc He.
   destruct t; try discriminate Ht; cbn [e_scalar] in He; inversion He; subst b; clear He;
     cbn [dec_scalar wire_type_of]; unfold canon_word in Hc; cbn [is4] in Hc.
   - (* int32 *)
@@ -100,13 +110,22 @@ Proof.
     rewrite (u64_small w) by lia. rewrite e_fixed64_spec. change (WT_64BIT =? WT_64BIT) with true.
     rewrite fixed64_rt by lia. reflexivity.
   - (* bool *)
-    apply orb_true_iff in Hc. destruct Hc as [Hc|Hc]; apply Z.eqb_eq in Hc; subst w; vm_compute; reflexivity.
+    rewrite e_bool_spec.
+    assert (Hw : w = 0 \/ w = 1) by (apply orb_true_iff in Hc; destruct Hc as [Hc|Hc]; apply Z.eqb_eq in Hc; auto).
+    assert (Ex : (if s32 w =? 0 then 0 else 1) = w) by (destruct Hw as [-> | ->]; reflexivity).
+    rewrite Ex. change (zlen [w]) with 1. cbn [app]. rewrite parse_boolean_one by exact Hw.
+    rewrite u32_small by lia. reflexivity.
   - (* enum *)
     rewrite (u32_small w) by lia. rewrite e_int32_spec by lia.
     destruct (sext32_range w ltac:(lia)) as [R M].
     change (WT_VARINT =? WT_VARINT) with true. unfold parse_int32. rewrite parse_u32_canon by lia.
     rewrite M. rewrite u32_small by lia. reflexivity.
 Qed.
+
+Theorem dec_enc_scalar : forall t w b, is_scalar t = true -> canon_word t w = true ->
+  e_scalar t w = Ok b ->
+  dec_scalar t (wire_type_of t) (zlen b) b = Ok w.
+Proof. intros t w b Ht Hc He. rewrite <- (app_nil_r b) at 2. apply dec_enc_scalar_rest; assumption. Qed.
 
 (* the payload of a scalar is a well-formed payload for its wire type *)
 Lemma scalar_payload_ok : forall t w b, is_scalar t = true -> e_scalar t w = Ok b ->
